@@ -293,6 +293,15 @@ fn main() {
     let mut inp = String::new();
     std::io::stdin().read_to_string(&mut inp).expect("stdin");
     let case: Value = serde_json::from_str(inp.lines().next().unwrap_or("{}")).expect("json");
+    // watchdog: a run that has not ended after 20 s (they take milliseconds) is reported as hanging
+    {
+        let id = case["id"].clone();
+        std::thread::spawn(move || {
+            std::thread::sleep(std::time::Duration::from_secs(20));
+            println!("\n@@R {}", json!({"id": id, "hang": true}));
+            std::process::exit(3);
+        });
+    }
     let mut f = util::feature("F", vec![]);
     f.position.line = 1;
     for sc in case["scenarios"].as_array().into_iter().flatten() {
